@@ -98,7 +98,12 @@ type runOut struct {
 	scen   string
 }
 
-var workerBin = filepath.Join(verifDir, "bin", "worker.test")
+var workerBin = func() string {
+	if p := os.Getenv("VERIF_WORKER_BIN"); p != "" {
+		return p // experiments next to a running batch
+	}
+	return filepath.Join(verifDir, "bin", "worker.test")
+}()
 
 func runWorker(prop, scen, tier string, seed int64, tape []int, gomaxprocs int, limit time.Duration) *runOut {
 	if scen == "" {
